@@ -69,6 +69,13 @@ class Split(Family):
                 for j in range(0, len(nl) + 1):
                     if c0 - j > 0:
                         yield dict(kind='harvest', recipe=[c0 - j, 6], nl=hx(nl), keep=(j % 2 == 0))
+        # data that uses EVERY byte value (no byte is free to serve as a private marker), in several arrangements
+        allb = bytes(range(256))
+        for nl in NEWLINES:
+            for k in (True, False):
+                yield dict(kind='allbytes', data=hx(b'+first' + nl + allb + nl + b'+last' + nl), nl=hx(nl), keep=k)
+                yield dict(kind='allbytes', data=hx(allb[::-1] + nl + allb), nl=hx(nl), keep=k)
+                yield dict(kind='allbytes', data=hx(bytes(b for b in range(256) if b not in nl) * 2 + nl), nl=hx(nl), keep=k)
         # empty newline (assertion)
         yield dict(kind='emptynl', data=hx(b'abc'), nl='', keep=True)
 
